@@ -30,7 +30,10 @@ def payload(rng, pid, k):
 
 def subset(rng, m, allow_empty=True):
     k = rng.randint(0 if allow_empty else 1, m)
-    return sorted(rng.sample(range(m), k)) if rng.random() < 0.7 else rng.sample(range(m), k)
+    r = sorted(rng.sample(range(m), k)) if rng.random() < 0.7 else rng.sample(range(m), k)
+    if r and rng.random() < 0.06:
+        r = r + [rng.choice(r)]              # the same party named twice: still the same set of parties
+    return r
 
 
 def gen_ops(rng, m, t):
@@ -201,7 +204,8 @@ def run(shard, rec):
         done = w.ok_results() is not None
 
         def V(mech, k, text, extra=None):
-            f = {'mechanism': mech, 'op': ops[k]['kind'] if k is not None else None}
+            f = {'mechanism': mech, 'op': ops[k]['kind'] if k is not None else None,
+                 'party_named_twice': k is not None and any(isinstance(ops[k].get(key), list) and ops[k][key][:1] != ['range'] and len(set(ops[k][key])) < len(ops[k][key]) for key in ('S', 'R'))}
             f.update(extra or {})
             rec.violation(f'{shard["name"]} program {pi} op {k} {ops[k] if k is not None else ""}: {text}', f, {'ops': ops, 'policy': policy, 'sched_seed': sseed}, case=case)
         # classify a non-completing world by the first operation that some party did not get past
